@@ -379,6 +379,8 @@ func (ex *Exec) step(st *State, fr *Frame, in ssa.Instruction) (forks []*State, 
 
 	case *ssa.Send:
 		w.Note("channel send: not modelled")
+		ex.sendGuard(st, fr, x.Chan, x.Pos())
+		ex.countSend(st, ex.operand(st, fr, x.Chan))
 		return nil, false
 
 	case *ssa.Go:
@@ -761,7 +763,6 @@ func (ex *Exec) sliceOp(st *State, fr *Frame, x *ssa.Slice) {
 			st.assume(Eq(BLen(Select(bm, ex.bmKey(base))), IntLit(at.Len())))
 			fr.regs[x] = MkSlice(ex.bmKey(base), lo, Sub(hi, lo), Sub(IntLit(at.Len()), lo))
 		} else {
-			w.Note("slice of pointer to non-byte array: fresh backing store")
 			fr.regs[x] = MkSlice(base, lo, Sub(hi, lo), Sub(IntLit(at.Len()), lo))
 		}
 	default:
